@@ -351,6 +351,9 @@ inductive HAtom where
   | ident (i : Nat)
   deriving DecidableEq, Repr
 
+/-- hash input of a number: CPython never returns `-1` from `hash`, `hash(-1) = hash(-2) = -2`. -/
+def hv (r : Rat) : HAtom := .val (if r = -1 then -2 else r)
+
 /-- `self._crs == other._crs` for optional CRS (`None == None`; `None == crs` is `False`
 because `CRS(None)` raises inside `__eq__`). -/
 def optCrsEq : Option CrsObj → Option CrsObj → Bool
@@ -393,7 +396,7 @@ def eq (a b : XYv) : Bool := a.x.eq b.x && a.y.eq b.y          -- `self._xy == o
 /-- `hash(self._xy)`; `Shape2d` overrides `__eq__` (types.py:217) without `__hash__`, so Python
 makes it unhashable -/
 def hashKey (a : XYv) : Option (List HAtom) :=
-  if a.cls = .shape2d then none else some [.val a.x.val, .val a.y.val]
+  if a.cls = .shape2d then none else some [hv a.x.val, hv a.y.val]
 /-- no `__dask_tokenize__`: dask hashes the pickle (class + slot `_xy`) -/
 def token (a : XYv) : Token := [.tag a.cls.name, .num a.x, .num a.y]
 def clone (a : XYv) : XYv := a
@@ -413,7 +416,7 @@ namespace BBox
 def eq (a b : BBox) : Bool :=
   optCrsEq a.crs b.crs && (a.l.eq b.l && a.b.eq b.b && a.r.eq b.r && a.t.eq b.t)
 def hashKey (a : BBox) : List HAtom :=
-  [optCrsHash a.crs, .val a.l.val, .val a.b.val, .val a.r.val, .val a.t.val]
+  [optCrsHash a.crs, hv a.l.val, hv a.b.val, hv a.r.val, hv a.t.val]
 def token (a : BBox) : Token :=
   [.tag "odc.geo.geom.BoundingBox", optCrsPkl a.crs, .num a.l, .num a.b, .num a.r, .num a.t]
 /-- pickle round trip: slots copied, the CRS goes through `CRS(_str)` giving `c'` -/
@@ -451,7 +454,7 @@ def eq (a b : GBox) : Bool :=
   (a.nx == b.nx && a.ny == b.ny) && numsEq a.aff b.aff && optCrsEq a.crs b.crs
 /-- `hash((*self._shape, self._crs, self._affine))` -/
 def hashKey (a : GBox) : List HAtom :=
-  [.val a.ny, .val a.nx, optCrsHash a.crs] ++ a.aff.map (fun n => .val n.val)
+  [hv a.ny, hv a.nx, optCrsHash a.crs] ++ a.aff.map (fun n => hv n.val)
 /-- `("odc.geo.geobox.GeoBox", str(self.crs), *self._shape.yx, *self._affine[:6])` -/
 def tokenTail (a : GBox) : Token := [.txt (optCrsStr a.crs), .int a.ny, .int a.nx] ++ a.aff.map .num
 def token (a : GBox) : Token := .tag "odc.geo.geobox.GeoBox" :: a.tokenTail
@@ -480,7 +483,7 @@ def eq (a b : GCPBox) : Bool :=
   (a.nx == b.nx && a.ny == b.ny) && a.mapping.ident == b.mapping.ident && numsEq a.aff b.aff
 /-- `hash((*self._shape, self._affine, self._crs, id(self._mapping)))` -/
 def hashKey (a : GCPBox) : List HAtom :=
-  [.val a.ny, .val a.nx, optCrsHash a.mapping.crs, .ident a.mapping.ident] ++ a.aff.map (fun n => .val n.val)
+  [hv a.ny, hv a.nx, optCrsHash a.mapping.crs, .ident a.mapping.ident] ++ a.aff.map (fun n => hv n.val)
 def tokenTail (a : GCPBox) : Token :=
   [.txt (optCrsStr a.mapping.crs), .farr a.mapping.wld, .farr a.mapping.pix, .int a.ny, .int a.nx]
     ++ a.aff.map .num
